@@ -1,6 +1,7 @@
 package rules
 
 import (
+	"regexp"
 	"fmt"
 	"go/token"
 	"go/types"
@@ -26,6 +27,9 @@ var operandOrder = map[string][]string{
 	"blk": {"ib2", "ib1"},
 	"rel8": {"ib1", "T"}, "rel16": {"T"},
 }
+
+var columnLabelRe = regexp.MustCompile(`(?:^|[^A-Za-z])([A-Za-z]{1,2})=-*$`)
+var formatVerbRe = regexp.MustCompile(`%[-+ #0-9.]*[a-zA-Z]`)
 
 func C14(ctx *Ctx) {
 	R := ctx.R
@@ -101,7 +105,7 @@ func C14(ctx *Ctx) {
 		}
 		R.Count("render-cells", len(cells))
 		pure, length, order, branch, regs := aggMap{}, aggMap{}, aggMap{}, aggMap{}, aggMap{}
-		nFlagRender := 0
+		nFlagRender, nColumn := 0, 0
 		for _, o := range outs {
 			r := o.r
 			c := r.Cell
@@ -178,6 +182,71 @@ func C14(ctx *Ctx) {
 				stale["cpu.RX"], stale["cpu.RY"] = true, true
 			} else {
 				stale["cpu.RXl"], stale["cpu.RYl"] = true, true
+			}
+			// register columns: a value rendered right after a label "<L>=" (xbuf.S / a format string) where
+			// the CPU has a register field R<L> must be that register (its copies R<L>, R<L>l, R<L>h)
+			pendingLabel := ""
+			checkColumn := func(label string, v absint.Val, e RenderEvent) {
+				iv, ok := v.(*absint.Int)
+				if !ok || label == "" {
+					return
+				}
+				var deps []string
+				for _, d := range absint.LinDeps(iv.Lin) {
+					if strings.HasPrefix(d.Key, "cpu.") {
+						deps = append(deps, d.Key)
+					}
+				}
+				nColumn++
+				okc := len(deps) > 0
+				for _, d := range deps {
+					if d != "cpu.R"+label && d != "cpu.R"+label+"l" && d != "cpu.R"+label+"h" {
+						okc = false
+					}
+				}
+				if !okc {
+					regs.add(fmt.Sprintf("%s:column-%s", rs, label), c.Opcode, ctx.Prog.Pos(e.Pos), fmt.Sprintf("cell %s: the column labelled %q shows %s", c, label+"=", trunc(iv.Lin.Key())))
+				}
+			}
+			labelOf := func(s string) string {
+				mm := columnLabelRe.FindStringSubmatch(s)
+				if mm == nil || !m.HasField("R"+mm[1]) {
+					return ""
+				}
+				return mm[1]
+			}
+			for _, e := range o.ev {
+				if strings.HasPrefix(e.Sink, "fmt.") {
+					// format string: the text in front of each verb labels the corresponding argument
+					pendingLabel = ""
+					fi := -1
+					for i, v := range e.Vals {
+						if sv, ok := v.(*absint.Str); ok && sv.Known && strings.Contains(sv.S, "%") {
+							fi = i
+							break
+						}
+					}
+					if fi >= 0 {
+						parts := formatVerbRe.Split(e.Vals[fi].(*absint.Str).S, -1)
+						for j := 0; j+1 < len(parts) && fi+1+j < len(e.Vals); j++ {
+							checkColumn(labelOf(parts[j]), e.Vals[fi+1+j], e)
+						}
+					}
+				} else if len(e.Vals) >= 1 {
+					if sv, ok := e.Vals[0].(*absint.Str); ok {
+						pendingLabel = ""
+						if sv.Known {
+							pendingLabel = labelOf(sv.S)
+						}
+					} else {
+						if iv, ok := e.Vals[0].(*absint.Int); ok {
+							if _, isC := iv.IsConst(); !isC || pendingLabel != "" {
+								checkColumn(pendingLabel, iv, e)
+							}
+						}
+						pendingLabel = ""
+					}
+				}
 			}
 			for _, e := range o.ev {
 				// a letter rendered under a test of exactly one flag field must be that flag's
@@ -323,11 +392,13 @@ func C14(ctx *Ctx) {
 		emitAgg(R, "operand-order", order, rs, "operand bytes rendered most significant first for every addressing mode")
 		emitAgg(R, "branch-target", branch, rs, "rel8/rel16 destinations equal Step's target")
 		emitAgg(R, "registers", regs, rs+":copies", "only authoritative register copies are rendered")
+		R.Count("register-columns", nColumn/2048) // per-cell renderings, scaled to source sites
 		R.Count("flag-letter-sites", nFlagRender/64) // per-cell renderings, scaled to the order of source sites
 	}
 	checkFlagLetters(ctx)
 	checkLoggerRegion(ctx)
 	R.Floor("render-cells", 3*2048)
+	R.Floor("register-columns", 1)
 }
 
 // checkFlagLetters: every call that renders a flag pairs field F with letter F.
